@@ -395,6 +395,40 @@ def run(ctx):
             res.add(Finding('C14', 'C14.c', 'R-WHOCALLS', it.file, it.qualname, lit.lineno, norm(lit)[:100],
                             '%s applies its own condition `%s%s` on the recorded metadata besides the shared matcher: recordings the documented '
                             'filter accepts (e.g. a missing value against a None alternative) are left out' % (it.qualname, '' if lp else 'not ', norm(lit))))
+    # ---- the answer is a function of (filter, metadata): the matcher functions keep nothing between calls (class attributes, globals)
+    cs14 = [c for c in res.clauses if c.id == 'C14.b'][0]
+    mfuncs = [f for f in tc.methods.values() if 'match' in f.name or 'operator' in f.name or 'compare' in f.name or 'criteria' in f.name or 'filter' in f.name]
+    kept = []
+    for f in mfuncs:
+        for n in ast.walk(f.node):
+            if isinstance(n, (ast.Assign, ast.AugAssign)):
+                for t_ in (n.targets if isinstance(n, ast.Assign) else [n.target]):
+                    base = t_.value if isinstance(t_, (ast.Attribute, ast.Subscript)) else None
+                    while isinstance(base, (ast.Attribute, ast.Subscript)):
+                        base = base.value
+                    if isinstance(base, ast.Name) and base.id in (tc.name, 'cls'):
+                        kept.append((f, n))
+            if isinstance(n, (ast.Global, ast.Nonlocal)):
+                kept.append((f, n))
+    cs14.instance('matcher functions write no class-level / global state (%d functions)' % len(mfuncs), tc.name, not kept)
+    for f, n in kept[:1]:
+        res.add(Finding('C14', 'C14.b', 'R-DECISION', f.file, f.qualname, n.lineno, norm(n)[:100],
+                        'the matcher keeps state between calls (`%s`): its answer then depends on earlier calls (a filter dict edited in place is judged by '
+                        'its old content) instead of on the filter and the metadata alone' % norm(n)[:80]))
+    # ---- a string filter is a shell pattern for the recorded value: fnmatch(<recorded value>, <pattern>)
+    vmf = [f for f in tc.methods.values() if any(isinstance(n, ast.Call) and isinstance(n.func, ast.Name) and n.func.id == 'fnmatch' for n in ast.walk(f.node))]
+    for f in vmf:
+        for n in ast.walk(f.node):
+            if isinstance(n, ast.Call) and isinstance(n.func, ast.Name) and n.func.id == 'fnmatch' and len(n.args) == 2:
+                names = [a.id if isinstance(a, ast.Name) else None for a in n.args]
+                prm = [q for q in f.params if q not in ('self', 'cls')]
+                # parameters: (match / filter value, recorded value) - the pattern is the filter's
+                okf = len(prm) >= 2 and names == [prm[1], prm[0]]
+                cs14.instance('fnmatch(recorded value, filter pattern) in %s' % f.name, f.qualname, okf)
+                if not okf:
+                    res.add(Finding('C14', 'C14.b', 'R-DECISION', f.file, f.qualname, n.lineno, norm(n),
+                                    '`%s` uses the recorded value as the pattern and the filter as the text: a filter such as "al*" no longer matches '
+                                    '"alice", and recorded values containing * ? [ match filters they should not' % norm(n)))
     return res
 
 
